@@ -115,3 +115,57 @@ Theorem C08_phase_by_CZ_q0 : forall K (O : Ops K), Laws O -> forall f fc r rc g,
   mmul O (mdiag O [k1 O; k1 O; f; f]) (mmul O (spec_CZPow O r rc g) (mdiag O [k1 O; k1 O; fc; fc])) = spec_CZPow O r rc g.
 Proof. exact @phase_by_CZ_q0. Qed.
 Print Assumptions C08_phase_by_CZ_q0.
+
+(* ---- control-value specifications (control_values.py): expand / & / | / validate / equality / is_trivial ---- *)
+From Coq Require Import Bool.
+From VF Require Import Sim.CtrlApply Gates.CtrlValues Gates.CtrlValuesProofs.
+Open Scope bool_scope.
+Theorem C08_cv_expand_selects_product_of_sums : forall s c, cactive (pos_expand s) c = pos_active s c.
+Proof. exact pos_expand_active. Qed.
+Print Assumptions C08_cv_expand_selects_product_of_sums.
+Theorem C08_cv_and_shortcut_is_general_and : forall a b, pos_expand (pos_and a b) = sop_and (pos_expand a) (pos_expand b).
+Proof. exact pos_and_expand. Qed.
+Print Assumptions C08_cv_and_shortcut_is_general_and.
+Theorem C08_cv_and_active : forall a b n c, (forall x, In x a -> length x = n) ->
+  cactive (sop_and a b) c = cactive a (firstn n c) && cactive b (skipn n c).
+Proof. exact sop_and_active. Qed.
+Print Assumptions C08_cv_and_active.
+Theorem C08_cv_or_active : forall a b c, cactive (sop_or a b) c = cactive a c || cactive b c.
+Proof. exact sop_or_active. Qed.
+Print Assumptions C08_cv_or_active.
+Theorem C08_cv_pos_or_contains_union : forall a b c, length a = length b ->
+  pos_active a c || pos_active b c = true -> pos_active (pos_or a b) c = true.
+Proof. exact pos_or_contains. Qed.
+Print Assumptions C08_cv_pos_or_contains_union.
+Theorem C08_cv_pos_or_one_qudit : forall va vb c, pos_active (pos_or [va] [vb]) c = pos_active [va] c || pos_active [vb] c.
+Proof. exact pos_or_one_qudit. Qed.
+Print Assumptions C08_cv_pos_or_one_qudit.
+(* the ProductOfSums short-cut of `|` is not the documented union (finding cv:or:pos-pos-multi-qudit) *)
+Theorem C08_cv_pos_or_is_union_refuted : exists a b c, length a = length b /\
+  pos_active (pos_or a b) c = true /\ pos_active a c || pos_active b c = false.
+Proof. exact pos_or_is_union_refuted. Qed.
+Print Assumptions C08_cv_pos_or_is_union_refuted.
+Theorem C08_cv_validate_pos_sound : forall s shape c, length s = length shape -> pos_valid s shape = true ->
+  pos_active s c = true -> digits_lt c shape = true.
+Proof. exact pos_valid_sound. Qed.
+Print Assumptions C08_cv_validate_pos_sound.
+Theorem C08_cv_validate_pos_complete : forall s shape, length s = length shape ->
+  (forall c, pos_active s c = true -> digits_lt c shape = true) -> (forall vs, In vs s -> vs <> []) -> pos_valid s shape = true.
+Proof. exact pos_valid_complete. Qed.
+Print Assumptions C08_cv_validate_pos_complete.
+Theorem C08_cv_validate_sop_sound : forall a shape c, sop_valid a shape = true -> cactive a c = true -> digits_lt c shape = true.
+Proof. exact sop_valid_sound. Qed.
+Print Assumptions C08_cv_validate_sop_sound.
+Theorem C08_cv_equal_iff_same_selection : forall a b, cv_same a b = true <-> (forall c, cactive a c = cactive b c).
+Proof. exact cv_same_iff. Qed.
+Print Assumptions C08_cv_equal_iff_same_selection.
+Theorem C08_cv_equal_same_block_matrix : forall K (O : Ops K) cdims a b m,
+  (forall c, cactive a c = cactive b c) -> ctrl_matrix O cdims a m = ctrl_matrix O cdims b m.
+Proof. exact cv_same_ctrl_matrix. Qed.
+Print Assumptions C08_cv_equal_same_block_matrix.
+Theorem C08_cv_trivial_is_all_ones : forall s c, pos_trivial s = true -> pos_active s c = list_eqb_nat c (repeat 1 (length s)).
+Proof. exact pos_trivial_active. Qed.
+Print Assumptions C08_cv_trivial_is_all_ones.
+Example C08_cv_example : cv_same (pos_expand (pos_and [[0; 1]; [2]] [[1]])) [[0; 2; 1]; [1; 2; 1]] = true
+  /\ pos_valid [[0; 1]; [2]] [2; 3] = true /\ pos_valid [[0; 1]; [2]] [2; 2] = false.
+Proof. vm_compute. auto. Qed.
